@@ -399,7 +399,42 @@ def rule_identity(res, rid, m, identity_only=False):
                           "%s writes a packet's raw CMP header into the frame template without overriding the %s with the encoder's configured "
                           "value afterwards: frames carry the packet's own %s" % (f.name, what, what))
     if n_raw == 0:
-        raise Broken("no function writes a raw CMP header into the frame template")
+        # the template's header may be composed field by field in a local CmpHeader that is then copied into the template: then every field
+        # the frames need is set on it before the copy — version and message type from the packet, device and stream id from the members
+        f = m.template_builder
+        comp = 0
+        for c in (f.calls() if f.cfg_raw else []):
+            ca = facts.copy_args(c)
+            if not ca or m.template not in depends(f, ca[0])[0]:
+                continue
+            s0 = strip_all_casts(ca[1])
+            while s0.get("k") == "cast":
+                s0 = s0["e"]
+            if not (s0.get("k") == "un" and s0.get("op") == "&"):
+                continue
+            loc0 = strip_all_casts(s0["e"])
+            if loc0.get("k") != "ref" or loc0.get("dk") != "local" or (loc0.get("t") or {}).get("rec") != CH:
+                continue
+            comp += 1
+            tag = f.name.split("::")[-1]
+            order = f.cfg.pos_of
+            for setter, want, what in ((CH + "::setVersion", PKT + "::getVersion", "version"), (CH + "::setMessageType", PKT + "::getMessageType", "message type"),
+                                       (CH + "::setDeviceId", m.deviceId, "device id"), (CH + "::setStreamId", m.streamId, "stream id")):
+                ok = False
+                for c2 in f.calls(setter):
+                    if strip_all_casts(c2.get("obj", {})).get("decl") != loc0["decl"] or not c2.get("args"):
+                        continue
+                    before = f.cfg.block_for(c2) == f.cfg.block_for(c) and order.get(c2["id"], 10 ** 9) < order.get(c["id"], -1) or \
+                        (f.cfg.block_for(c2) != f.cfg.block_for(c) and f.cfg.dominates(f.cfg.block_for(c2), f.cfg.block_for(c)))
+                    src_ok = (want in depends(f, c2["args"][0])[1]) if "::get" in want else (strip_all_casts(c2["args"][0]).get("field") == want)
+                    if before and src_ok:
+                        ok = True
+                res.check(ok, rid, "%s:composed-header:%s" % (tag, what.replace(" ", "-")), c.get("loc"),
+                          "the composed frame header gets its %s from %s before it is copied into the template" % (what, "the packet" if "::get" in want else "the encoder's member"),
+                          "%s composes the frame header in a local CmpHeader but never sets its %s from %s: every frame carries the default %s" %
+                          (f.name, what, "the packet" if "::get" in want else "the encoder's member", what))
+        if comp == 0:
+            raise Broken("no function writes a raw CMP header into the frame template")
     # setters of the ids
     for member, what in ((m.deviceId, "device id"), (m.streamId, "stream id")):
         for wf, kind, n in m.writes.get(member, []):
